@@ -37,6 +37,14 @@ def run_worlds(chk, prop, n, streams=("regular",), seed_tag="e2e"):
 
     rng = common.Rng(chk.seed, f"{seed_tag}")
     jobs = []
+    # minimised past failures run first (harness/corpus/e2e/*.json: {"world", "seed"})
+    cdir = os.path.join(os.path.dirname(os.path.dirname(os.path.abspath(__file__))), "corpus", "e2e")
+    if os.path.isdir(cdir):
+        for fn in sorted(os.listdir(cdir)):
+            if fn.endswith(".json"):
+                c = json.load(open(os.path.join(cdir, fn)))
+                c["world"].setdefault("stream", "corpus")
+                jobs.append((c["world"], c["seed"]))
     for i in range(n):
         stream = streams[i % len(streams)]
         jobs.append((sim_gen.gen_world(rng, stream), chk.seed * 100003 + i))
